@@ -1,6 +1,7 @@
 import CalVerif.Lemmas.PtgXlsb
 import CalVerif.Lemmas.PtgPanics
 import CalVerif.Lemmas.PtgSpecEnv
+import CalVerif.Lemmas.XlsxFormula
 /-! # C14 — formulas are reported with the A1 text the token stream encodes
 
     Theorems about the model of the two token decoders (`Model/Ptg.lean`: `pushColumn`, `cellRef`,
@@ -230,6 +231,58 @@ theorem parse_formula_xlsb_spec (sheets names : List (List Char)) (xtis : List I
 /-- non-vacuity: `Data!IV$5` with XTI table [1, 0] and sheets [S1, Data] resolves -/
 example : (Tok.ref3d 1 0 ⟨4, 255, false, true⟩).refsOk ["S1".toList, "Data".toList] [] [1, 0] :=
   ⟨1, rfl, by decide, by decide⟩
+
+/-! ## xlsx: the formula is the stored text, at the cell's position -/
+
+section Xlsx
+open XlsxCells XlsxSheet XlsxFormula
+
+/-- **formula_positions_xlsx.** For every well-formed logical sheet (C01's `XlsxSheet.Sheet`: rows and columns
+    increasing, inside the grid) and EVERY layout — `r` written or omitted on any row and any cell wherever the
+    format allows it, either letter case, element prefix or not, any or no `<dimension>` — `next_formula` returns
+    exactly one entry per stored cell, in row-major order, at that cell's position, holding the text of its `<f>`
+    child verbatim (`""` when it has none). -/
+theorem formula_positions_xlsx (s : Sheet) (lay : Layout) (hwf : s.WF) (hdim : lay.DimOk) :
+    readFormulas (renderSheet s lay) = .ok (formulasOf s) ∧
+    (formulasOf s).map (fun c => (c.1, c.2.1)) = s.flatMap (fun row => row.2.map fun cell => (row.1, cell.1)) := by
+  refine ⟨readFormulas_render s lay hwf hdim, ?_⟩
+  simp only [formulasOf, rowFormulas, List.map_flatMap, List.map_map]
+  rfl
+
+/-- formulas are reported at the positions the value reader (`next_cell`, C01 `cursor_positions`) reports the same
+    cells at: the two cursors agree on every encoded sheet -/
+theorem formula_cursor_agrees_with_values (cfg : Cfg) (s : Sheet) (lay : Layout) (hwf : s.WF)
+    (hok : s.ContentOk cfg) (hdim : lay.DimOk) :
+    ∃ dims cells fcells, readCells cfg (renderSheet s lay) = .ok (dims, cells) ∧
+      readFormulas (renderSheet s lay) = .ok fcells ∧
+      cells.map (fun c => (c.1, c.2.1)) = fcells.map (fun c => (c.1, c.2.1)) := by
+  refine ⟨_, _, _, readCells_render cfg s lay hwf hok hdim, readFormulas_render s lay hwf hdim, ?_⟩
+  simp only [cellsOf, formulasOf, rowFormulas, List.map_flatMap, List.map_map]
+  rfl
+
+/-- what `worksheet_formula` builds its range from does not depend on the layout: the stored cells that have a
+    non-empty formula text (`Range::from_sparse` of them is the bounding rectangle with `""` elsewhere: C05) -/
+theorem worksheet_formula_layout_independent (s : Sheet) (lay lay' : Layout) (hwf : s.WF) (hdim : lay.DimOk)
+    (hdim' : lay'.DimOk) :
+    worksheetFormula (renderSheet s lay) = worksheetFormula (renderSheet s lay') ∧
+    worksheetFormula (renderSheet s lay) = Range.fromSparse ((formulasOf s).filter fun c => c.2.2 ≠ []) := by
+  simp only [worksheetFormula, formulaCells, readFormulas_render s lay hwf hdim, readFormulas_render s lay' hwf hdim',
+    and_self]
+
+/-- non-vacuity, and the shape that separates a correct cursor from a wrong one: two rows, the second without
+    `r`, cells without `r`; the second formula is at column 0 of row 1, not after the first row's last column -/
+example :
+    let s : Sheet := [(0, [(0, ⟨.blank, none, some [66, 49]⟩), (1, ⟨.num [49] false, none, none⟩)]),
+                      (1, [(0, ⟨.blank, none, some [65, 49]⟩)])]
+    let lay : Layout := ⟨false, none, fun _ => false, fun _ _ => false, fun _ _ => false⟩
+    readFormulas (renderSheet s lay) = .ok [(0, 0, [66, 49]), (0, 1, []), (1, 0, [65, 49])] := by
+  intro s lay
+  have hwf : s.WF := by simp [s, Sheet.WF, Increasing]
+  have hdim : lay.DimOk := by intro d hd; simp [lay] at hd
+  rw [(formula_positions_xlsx s lay hwf hdim).1]
+  rfl
+
+end Xlsx
 
 /-! ## offsets: the stack of string offsets never goes wrong -/
 
